@@ -644,35 +644,59 @@ def run_comb(case, res):
     run_comb_refused(case, res)
     arity = {"map": 1, "nocancel": 1, "proxy": 1, "timeout": 1, "flat_map": 2}.get(comb, case["n"])
     ends = ["value", "exc", "cancel"]
-    for assign in itertools.product(ends, repeat=arity):
+    F = instr.ME.futures
+    WRAPS = {"plain": lambda f: f, "proxy": lambda f: F.f_proxy(f), "map": lambda f: F.f_map(f, lambda v: v),
+             "nocancel": lambda f: F.f_nocancel(f)}
+    variants = [("plain", "none")] + [(w, "none") for w in ("proxy", "map", "nocancel")] + [("plain", cb) for cb in ("cancel_inputs", "complete_inputs")] \
+        + [("map", "cancel_inputs")]
+    for (wrap, out_cb), assign in itertools.product(variants, itertools.product(ends, repeat=arity)):
         for order in itertools.permutations(range(arity)):
             begin("vt")
             ctx = Ctx()
             try:
                 ins = [SpyFuture("in%d" % i) for i in range(arity)]
-                out = make_comb(comb, ins)
+                # what the combinator is given: the harness's futures themselves, or library futures derived from them
+                given = [WRAPS[wrap](f) for f in ins]
+                out = make_comb(comb, given)
+                if out_cb == "cancel_inputs":
+                    # a done-callback of the output that tidies up the inputs (same thread, inside the library's dispatch)
+                    out.add_done_callback(lambda o: [g.cancel() for g in given])
+                elif out_cb == "complete_inputs":
+                    def fill(o):
+                        for f in ins:
+                            try:
+                                f.set_result(0)
+                            except Exception:
+                                pass
+                    out.add_done_callback(fill)
                 for i in order:
                     f = ins[i]
                     if f.done():
                         continue  # the combinator already cancelled it
                     how = assign[i]
-                    if how == "value":
-                        v = (lambda *a: ("applied", a)) if (comb == "apply" and i == 0) else (i + 1)
-                        try:
-                            f.set_result(v)
-                        except Exception:
-                            pass
-                    elif how == "exc":
-                        try:
-                            f.set_exception(UserErrorA("in%d" % i))
-                        except Exception:
-                            pass
-                    else:
-                        f.cancel()
+                    try:
+                        if how == "value":
+                            v = (lambda *a: ("applied", a)) if (comb == "apply" and i == 0) else (i + 1)
+                            try:
+                                f.set_result(v)
+                            except Exception:
+                                pass
+                        elif how == "exc":
+                            try:
+                                f.set_exception(UserErrorA("in%d" % i))
+                            except Exception:
+                                pass
+                        else:
+                            f.cancel()
+                    except instr.DeadlockBroken:
+                        # the lock monitor recorded it (reported by check_common below); this thread goes on
+                        break
                     # flat_map: the inner future only matters if the outer succeeded
                 instr.advance(D)
                 res.execs += 1
-                check_common(res)
+                check_common(res, deadlock_suffix="@comb.end/%s/out-callback:%s" % (comb, out_cb))
+                if LM.deadlocks:
+                    continue
                 relevant_done = all(f.done() for f in ins)
                 if comb == "flat_map" and assign[0] != "value":
                     relevant_done = ins[0].done()
@@ -680,11 +704,11 @@ def run_comb(case, res):
                     how = "external-cancel" if "cancel" in assign else "/".join(assign)
                     res.violation("lost/%s/%s" % (how, type(out).__name__) if how == "external-cancel" else
                                   "lost/comb/%s/%s" % (comb, how),
-                                  "f_%s output (%s) pending although every input is terminal: inputs=%s order=%s"
-                                  % (comb, type(out).__name__, assign, order), comb=comb)
-                res.key("comb", comb, assign, order)
+                                  "f_%s output (%s) pending although every input is terminal: inputs=%s order=%s (inputs given as: %s, "
+                                  "output callback: %s)" % (comb, type(out).__name__, assign, order, wrap, out_cb), comb=comb)
+                res.key("comb", comb, assign, order, wrap, out_cb)
                 res.count("combinator_outputs_judged")
-                res.sample({"combinator": comb, "input_ends": assign, "completion_order": order,
+                res.sample({"combinator": comb, "inputs_are": wrap, "output_callback": out_cb, "input_ends": assign, "completion_order": order,
                             "output": outcome_repr(outcome(out))}, limit=1)
             finally:
                 end(ctx)
